@@ -110,7 +110,9 @@ def build(rnd, kind, opts=None):
         ht = o.get("hashtype", rnd.choice((0, 0, 1, 2, 3, 0x81, 0x83)))
         annex = (b"\x50" + rb(rnd, rnd.choice((0, 1, 40)))) if o.get("annex", rnd.random() < 0.2) else None
         spent = [(signed_amount, spk)]
-        d = P.bip341_sighash(tx_now(), idx, spent, ht, annex=annex)
+        try: d = P.bip341_sighash(tx_now(), idx, spent, ht, annex=annex)
+        except IndexError: d = None
+        if d is None: d = bytes(32)      # SIGHASH_SINGLE without a matching output: no digest exists, the signature is refused whatever it is
         sig = P.schnorr_sign(osk, d, rb(rnd, 32)) + (bytes([ht]) if ht else b"")
         vin[idx][3] = [sig] + ([annex] if annex is not None else [])
         s.annex = annex
@@ -119,7 +121,9 @@ def build(rnd, kind, opts=None):
         ht = o.get("hashtype", rnd.choice((0, 0, 1, 2, 3, 0x81, 0x83)))
         annex = (b"\x50" + rb(rnd, rnd.choice((0, 1, 40, 600)))) if o.get("annex", rnd.random() < 0.2) else None
         spent = [(signed_amount, spk)]
-        d = P.bip341_sighash(tx_now(), idx, spent, ht, annex=annex, leaf_hash=lh)
+        try: d = P.bip341_sighash(tx_now(), idx, spent, ht, annex=annex, leaf_hash=lh)
+        except IndexError: d = None
+        if d is None: d = bytes(32)
         sig = P.schnorr_sign(xsk, d, rb(rnd, 32)) + (bytes([ht]) if ht else b"")
         control = bytes([0xc0 | par]) + internal + b"".join(path)
         items = o.get("leaf_args", [sig])
